@@ -111,6 +111,28 @@ def structural(fmt, text):
     return out
 
 
+def sibling_replacements(fmt, text):
+    """Replacement of a token by the token that stood in the same position of the nearest EARLIER construct of the same kind
+    (same preceding token): '(instance u2' -> '(instance u1', 'wire b' -> 'wire a', '.cname x2' -> '.cname x1'.  Every
+    token stays well-formed; what changes is that two declarations now share a name, or a reference now means a sibling."""
+    tok, join, _, _ = FORMATS[fmt]
+    toks = tok(text)
+    punct = set("()[]{};,.:=#") | {""}
+    last = {}
+    out = []
+    for i in range(1, len(toks)):
+        p_, t = toks[i - 1], toks[i]
+        if t in punct or p_ in punct and fmt != "verilog" or t.startswith('"'):
+            continue
+        if t in DELIMITERS[fmt] or p_ == t:
+            continue
+        prev = last.get(p_)
+        if prev is not None and prev != t:
+            out.append(("sibling:%s" % p_.lower()[:20], i, join(toks[:i] + [prev] + toks[i + 1:])))
+        last[p_] = t
+    return out
+
+
 def edif_dangling(text):
     """One corrupted text per reference (cellRef / libraryRef / portRef / instanceRef / member / design cellRef)
     retargeted to an undeclared identifier."""
